@@ -36,6 +36,20 @@ type c15MsgCase struct {
 	Ns     []c15RR `json:"authority"`
 	Ar     []c15RR `json:"additional"`
 	Nested int     `json:"nested,omitempty"` // informational: length of the longest chain name_k = label_k + name_(k-1) the generator built
+	Bulk   [4]int  `json:"bulk,omitempty"`   // further cheap entries appended to question / answer / authority / additional (root name, TXT IN, empty RDATA)
+}
+
+func (c c15MsgCase) counts() [4]int {
+	return [4]int{len(c.Q) + c.Bulk[0], len(c.An) + c.Bulk[1], len(c.Ns) + c.Bulk[2], len(c.Ar) + c.Bulk[3]}
+}
+
+func (c c15MsgCase) countOverflow() bool {
+	for _, n := range c.counts() {
+		if n > 65535 {
+			return true
+		}
+	}
+	return false
 }
 
 // c15Build turns a case into a Message; names go through NewName like every caller does. ok=false
@@ -72,6 +86,19 @@ func c15Build(c c15MsgCase) (m *Message, ok bool, overflow bool) {
 				m.Additional = append(m.Additional, rr)
 			}
 		}
+	}
+	for i := 0; i < c.Bulk[0]; i++ {
+		m.Question = append(m.Question, Question{Name: Name{}, Type: RRTypeTXT, Class: ClassIN})
+	}
+	bulk := RR{Name: Name{}, Type: RRTypeTXT, Class: ClassIN, Data: []byte{}}
+	for i := 0; i < c.Bulk[1]; i++ {
+		m.Answer = append(m.Answer, bulk)
+	}
+	for i := 0; i < c.Bulk[2]; i++ {
+		m.Authority = append(m.Authority, bulk)
+	}
+	for i := 0; i < c.Bulk[3]; i++ {
+		m.Additional = append(m.Additional, bulk)
 	}
 	return m, true, overflow
 }
@@ -130,7 +157,7 @@ func c15Uncompressed(c c15MsgCase) int {
 			n += c15RefOctets(r.Name) + 10 + r.DataLen
 		}
 	}
-	return n
+	return n + 5*c.Bulk[0] + 11*(c.Bulk[1]+c.Bulk[2]+c.Bulk[3])
 }
 
 func c15MsgCheck(t vh.Fataler, rec *vh.Rec, c c15MsgCase) {
@@ -166,6 +193,14 @@ func c15MsgCheck(t vh.Fataler, rec *vh.Rec, c c15MsgCase) {
 	if overflow {
 		classes = append(classes, "rdlength>65535")
 	}
+	cnt := c.counts()
+	cntOver := c.countOverflow()
+	secName := []string{"question", "answer", "authority", "additional"}
+	for i, n := range cnt {
+		if n >= 65535 {
+			classes = append(classes, fmt.Sprintf("%s-count=%d", secName[i], n))
+		}
+	}
 	var buf []byte
 	var err error
 	if pan, what := c15h.Catch(func() { buf, err = m.WireFormat() }); pan {
@@ -175,7 +210,35 @@ func c15MsgCheck(t vh.Fataler, rec *vh.Rec, c c15MsgCase) {
 	}
 	if err != nil {
 		classes = append(classes, "rejected:"+c15ErrClass(err))
-		rec.Case(overflow, vh.Digest(c), c, classes...)
+		for i, n := range cnt {
+			if n > 65535 {
+				classes = append(classes, secName[i]+"-count>65535:rejected")
+			}
+		}
+		if !overflow && !cntOver && (c.Bulk != [4]int{}) {
+			// every section within its 16-bit count, every RDATA within its 16-bit length: representable
+			rec.Case(true, vh.Digest(c), c, append(classes, "VALID-REJECTED")...)
+			rec.Violation(t, "dns:msg:valid-rejected", c, "WireFormat refuses a message whose section counts (%v) and RDATA lengths all fit their 16-bit fields: %v", cnt, err)
+			return
+		}
+		rec.Case(overflow || cntOver, vh.Digest(c), c, classes...)
+		return
+	}
+	if cntOver {
+		key := "dns:msg:count-overflow"
+		rec.Case(true, vh.Digest(c), c, append(classes, "COUNT-OVERFLOW-ACCEPTED")...)
+		m2, derr := MessageFromWireFormat(buf)
+		got := "does not parse: "
+		if derr != nil {
+			got += derr.Error()
+		} else {
+			got = fmt.Sprintf("parses as %d questions, %d/%d/%d records", len(m2.Question), len(m2.Answer), len(m2.Authority), len(m2.Additional))
+		}
+		hdr := buf
+		if len(hdr) > 12 {
+			hdr = hdr[:12]
+		}
+		rec.Violation(t, key, c, "WireFormat accepted (err=nil) a message with %v entries in question/answer/authority/additional although a section count does not fit 16 bits; header % x; its output %s", cnt, hdr, got)
 		return
 	}
 	compressed := len(buf) < c15Uncompressed(c)
@@ -185,7 +248,7 @@ func c15MsgCheck(t vh.Fataler, rec *vh.Rec, c c15MsgCase) {
 	if len(buf) > 0x3fff {
 		classes = append(classes, "message>16383")
 	}
-	nontriv := compressed || overflow
+	nontriv := compressed || overflow || cnt[0] >= 65535 || cnt[1] >= 65535 || cnt[2] >= 65535 || cnt[3] >= 65535
 	var m2 Message
 	var derr error
 	if pan, what := c15h.Catch(func() { m2, derr = MessageFromWireFormat(buf) }); pan {
@@ -348,9 +411,10 @@ func c15MsgGen(rt *rapid.T) c15MsgCase {
 }
 
 func TestVerif_C15_messages(t *testing.T) {
-	rec := vh.NewRec("C15", "messages", "nested chains of every depth 2-127 (enumerated), then rapid: messages of 0-40 entries spread over the four sections; names are 0-3 labels from a pool of 1-5 labels in front of a suffix of a common base (shared suffixes => compression pointers), case-flipped copies of earlier names, the root, or nested chains name_k = label+name_(k-1) of up to 40 links; types/classes/TTLs from boundary values; RDATA of 0/1/4/17/255/256 bytes and rarely 16400 (later names sit beyond the 14-bit pointer range), 65535 or 65536 bytes. Oracle: WireFormat returned an error, or MessageFromWireFormat(WireFormat(m)) == m field by field. Non-trivial = at least one compression pointer was emitted (wire size < uncompressed size) or an RDATA beyond 65535; distinct by case")
+	rec := vh.NewRec("C15", "messages", "section counts of 65535 / 65536 / 65537 entries in each of the four sections (enumerated: 65535 must round-trip, more must be refused with an error) and nested chains of every depth 2-127 (enumerated), then rapid: messages of 0-40 entries spread over the four sections; names are 0-3 labels from a pool of 1-5 labels in front of a suffix of a common base (shared suffixes => compression pointers), case-flipped copies of earlier names, the root, or nested chains name_k = label+name_(k-1) of up to 40 links; types/classes/TTLs from boundary values; RDATA of 0/1/4/17/255/256 bytes and rarely 16400 (later names sit beyond the 14-bit pointer range), 65535 or 65536 bytes. Oracle: WireFormat returned an error, or MessageFromWireFormat(WireFormat(m)) == m field by field. Non-trivial = at least one compression pointer was emitted (wire size < uncompressed size) or an RDATA beyond 65535; distinct by case")
 	defer rec.Flush()
-	rec.Require("ok", "compressed", "nested<12", "nested>=12", "nested=127", "rdlength>65535", "message>16383")
+	rec.Require("ok", "compressed", "nested<12", "nested>=12", "nested=127", "rdlength>65535", "message>16383",
+		"question-count=65535", "answer-count=65535", "authority-count=65535", "additional-count=65535", "question-count>65535:rejected", "answer-count>65535:rejected", "authority-count>65535:rejected", "additional-count>65535:rejected")
 	if p := vh.ReplayFile(); p != "" {
 		var c c15MsgCase
 		if _, _, err := vh.LoadReplay(p, &c); err != nil {
@@ -359,7 +423,33 @@ func TestVerif_C15_messages(t *testing.T) {
 		c15MsgCheck(t, rec, c)
 		return
 	}
-	// enumerated first: nested chains of every depth a 255-octet name allows (one-byte labels:
+	// enumerated first: the 16-bit section counts. 65535 entries must be accepted and survive the round
+	// trip, 65536 and 65537 must be refused with an error, in each of the four sections (cheap entries:
+	// root-name questions / root-name records with empty RDATA)
+	ci := 0
+	for sec := 0; sec < 4; sec++ {
+		for _, n := range []int{65535, 65536, 65537} {
+			ci++
+			if !vh.Mine(ci) {
+				continue
+			}
+			c := c15MsgCase{ID: uint16(ci), Flags: 0x8400}
+			c.Bulk[sec] = n - 1
+			one := c15RR{Name: []vh.Hex{{'a'}}, Type: 16, Class: 1, TTL: 60, DataLen: 1} // one ordinary entry among them
+			switch sec {
+			case 0:
+				c.Q = []c15RR{one}
+			case 1:
+				c.An = []c15RR{one}
+			case 2:
+				c.Ns = []c15RR{one}
+			default:
+				c.Ar = []c15RR{one}
+			}
+			c15MsgCheck(t, rec, c)
+		}
+	}
+	// then: nested chains of every depth a 255-octet name allows (one-byte labels:
 	// name_k has k labels and is written as one label plus a pointer to name_(k-1))
 	// (not sharded: 126 cheap cases, and every shard then reports the same smallest failing depth)
 	for depth := 2; depth <= 127; depth++ {
